@@ -28,20 +28,28 @@ ASSUMPTIONS = [
     'Mersenne primes)',
     'builtin int arithmetic, pow() and math.gcd/isqrt are correct (used by the references)',
     'undefined inputs are not judged: legendre with y not an odd prime > 0 may return anything or raise; '
-    'is_square of a negative number may return False or raise; isqrt of a negative must not return',
+    'is_square of a negative number may return False or raise; isqrt of a negative must not return; iroot of a '
+    'negative x (gmpy2: ValueError) must raise or return the true root -- the property says "correct results or '
+    'raise on invalid input"',
+    'exception types are demanded only where documented (invert: ZeroDivisionError) or where gmpy2 and the stub '
+    'agree on ValueError (prev_prime below 3, jacobi/legendre with y even or <= 0, factor_prime_power); ratrec '
+    'failures may be any exception',
+    'a job that has used 60 (thorough 900) s of CPU is reported as non-termination of the call in progress '
+    '(normal job: a few s)',
 ]
 MANIFEST = dict(
     level='exploration',
     technique='bounded-exhaustive enumeration with a witness-controlling seam on random.randint, against '
               'sieve / brute-force / definition references',
-    text='is_prime: every witness a in [2,x-2] for all odd x < 3000 and for all composites < 12000 (40000 thorough) '
+    text='is_prime: every witness a in [2,x-2] for all odd x < 3000 and for all composites < 10000 (40000 thorough) '
          'that survive the trial division (primes never rejected, composite accepted iff a is a strong liar), '
-         'round-count logic, all x < 2*10^5 (2*10^6) and 2^j+d (j <= 128, |d| <= 20; thorough j <= 200, |d| <= 40) with 13 fixed bases, known '
+         'round-count logic, all x < 2*10^5 (2*10^6) and 2^j+d (j <= 128, |d| <= 16; thorough j <= 200, |d| <= 40) with 13 fixed bases, known '
          'strong pseudoprimes/Carmichael numbers; next_prime/prev_prime on the same ranges; invert, gcdext (GMP '
          'normalisation found by brute force), powmod for all |a|,|b| <= 60 (100); legendre/jacobi/kronecker vs '
          'definitions for all x,y in +-60 (+-150) and 2^j+-1 numerators; isqrt/iroot/is_square for all n < 10^4 '
          '(10^5), roots 1..9, and r^n+-1, 2^j+-1 up to 2^200; factor_prime_power for all x < 10^5 (10^6) and '
-         'constructed p^d, p^a q^b, (pq)^d around 2^10, 2^20, 2^32, 2^64; ratrec for all y < 200 (all x, all '
+         'constructed p^d (all primes p < 1100 (2100), d <= 8 (12); primes around 2^10, 2^16, 2^20, 2^32, 2^64, d up to 64), '
+         'p^a q^b, (pq)^d, s^a p^b; ratrec for all y < 200 (all x, all '
          'admissible (N,D) for y < 64 (128)) vs brute-force solution sets.',
     ref='DESIGN 5/C25',
     note='trusted: Python int arithmetic/pow/math; the seam assumption (witnesses only via random.randint); '
@@ -388,40 +396,42 @@ def jobs(tier, seed):
     q = tier == 'quick'
     js = []
     # (1) every witness
-    wl = 12000 if q else 40000
+    wl = 10000 if q else 40000
     spf = R.spf_table(wl)
     surv = [x for x in range(3000, wl) if spf[x] >= 59 and spf[x] != x]
-    js += [dict(kind='witness_small', lo=a, hi=b) for a, b in chunks(0, 3000, 6)]
-    k = 12 if q else 40
+    js += [dict(kind='witness_small', lo=a, hi=b) for a, b in chunks(0, 3000, 4)]
+    k = 10 if q else 12
     # balance by cost ~ x: deal round robin
     js += [dict(kind='witness_surv', xs=surv[i::k]) for i in range(k)]
     # (2) sweep
     top = 200_000 if q else 2_000_000
-    js += [dict(kind='sweep', lo=a, hi=b) for a, b in chunks(-20, top, 16 if q else 48)]
+    js += [dict(kind='sweep', lo=a, hi=b) for a, b in chunks(-20, top, 10)]
     # (3) large alphabet
     jm = 128 if q else 200
-    js += [dict(kind='large', js=list(range(6, jm + 1))[i::8], dmax=20 if q else 40) for i in range(8)]
+    js += [dict(kind='large', js=list(range(6, jm + 1))[i::6], dmax=16 if q else 40) for i in range(6)]
     js.append(dict(kind='hard'))
     # (4) arithmetic
     r = 60 if q else 100
-    js += [dict(kind='arith', avals=list(range(-r, r + 1))[i::6], r=r) for i in range(6)]
+    js += [dict(kind='arith', avals=list(range(-r, r + 1))[i::3], r=r) for i in range(3)]
     rs = 60 if q else 150
-    js += [dict(kind='symbols', xs=list(range(-rs, rs + 1))[i::4], r=rs) for i in range(4)]
+    js += [dict(kind='symbols', xs=list(range(-rs, rs + 1))[i::2], r=rs) for i in range(2)]
     js.append(dict(kind='symbols_big', jm=jm))
     # (5) roots
     rt = 10_000 if q else 100_000
-    js += [dict(kind='roots', lo=a, hi=b) for a, b in chunks(-40, rt, 6)]
+    js += [dict(kind='roots', lo=a, hi=b) for a, b in chunks(-40, rt, 3)]
     js.append(dict(kind='roots_big', jm=200))
     # (6) factor_prime_power
     ft = 100_000 if q else 1_000_000
-    js += [dict(kind='fpp', lo=a, hi=b) for a, b in chunks(-5, ft, 12 if q else 32)]
-    js.append(dict(kind='fpp_big', thorough=not q))
+    js += [dict(kind='fpp', lo=a, hi=b) for a, b in chunks(-5, ft, 10)]
+    js += [dict(kind='fpp_big', thorough=not q, idx=i, of=6) for i in range(6)]
     # (7) ratrec
     ry, rfull = (200, 64) if q else (200, 128)
     ys = list(range(-2, ry))
-    js += [dict(kind='ratrec', ys=ys[i::8], full=rfull) for i in range(8)]
+    js += [dict(kind='ratrec', ys=ys[i::5], full=rfull) for i in range(5)]
     for j in js:
-        j['budget'] = 120 if q else 900            # CPU seconds per job before the watchdog reports a hang
+        j['budget'] = 60 if q else 900            # CPU seconds per job before the watchdog reports a hang
+    for kind in ('witness_small', 'witness_surv', 'sweep', 'large', 'fpp_big', 'ratrec'):
+        next(j for j in js if j['kind'] == kind)['sampler'] = True      # fixed set of 6 written-out samples
     order = ['fpp_big', 'witness_surv', 'large', 'fpp', 'sweep']          # longest first (pool balance only)
     js.sort(key=lambda j: order.index(j['kind']) if j['kind'] in order else len(order))
     return js
@@ -498,7 +508,8 @@ def job_sweep(part, g, seam, job):
                 prv = x
         part.case(nontrivial=x > 53 and x % 2 == 1, n=3)
         part.outcomes.add(('sweep', x >= 0 and bool(sv[x])))
-    part.sample(dict(fn='is_prime/next_prime/prev_prime', range=[lo, hi], oracle='sieve'))
+    x = max(lo, 0) + 1000
+    part.sample(dict(x=x, is_prime=bool(g.is_prime(x)), next_prime=g.next_prime(x), prev_prime=g.prev_prime(x), oracle='sieve'))
 
 
 def job_large(part, g, seam, job):
@@ -623,7 +634,6 @@ def job_roots(part, g, seam, job):
     for x in range(job['lo'], job['hi']):
         ck_roots(part, g, x, 9)
         part.case(nontrivial=x > 1, n=11 if x >= 0 else 11)
-    part.sample(dict(fn='isqrt/is_square/iroot(n=1..9)', range=[job['lo'], job['hi']]))
 
 
 def job_roots_big(part, g, seam, job):
@@ -655,7 +665,6 @@ def job_fpp(part, g, seam, job):
                 want = (p, dd)
         ck_fpp(part, g, seam, x, want)
         part.case(nontrivial=x > 1)
-    part.sample(dict(fn='factor_prime_power', range=[lo, hi], oracle='smallest-prime-factor table'))
 
 
 def fpp_primes():
@@ -679,7 +688,8 @@ def job_fpp_big(part, g, seam, job):
     if job['thorough']:
         ds += [28, 30, 33, 36, 40, 45, 48, 50, 54, 63, 81]
     cnt = 0
-    for p in ps:
+    idx, of = job['idx'], job['of']
+    for p in ps if idx == 0 else ():
         for d in ds:
             if p.bit_length() * d > 1400:
                 continue
@@ -693,7 +703,9 @@ def job_fpp_big(part, g, seam, job):
     # the root-extraction bound k*e <= bit_length), and products of neighbouring primes there
     small = [p for p in range(2, 1100 if not job['thorough'] else 2100) if R.trial_is_prime(p)]
     for i, p in enumerate(small):
-        for d in range(1, 13):
+        if i % of != idx:
+            continue
+        for d in range(1, 13 if job['thorough'] else 9):
             ck_fpp(part, g, seam, p**d, (p, d))
             cnt += 1
         if i + 1 < len(small) and p > 400:
@@ -702,7 +714,7 @@ def job_fpp_big(part, g, seam, job):
                 ck_fpp(part, g, seam, p**a * q**b, None)
                 cnt += 1
     # products of two distinct primes (powers), every ordered combination of a window
-    for i, p in enumerate(big):
+    for i, p in enumerate(big if idx == 0 else ()):
         for q in big[i + 1:i + 4] + big[-2:]:
             if q == p:
                 continue
@@ -713,12 +725,12 @@ def job_fpp_big(part, g, seam, job):
             for a, b in ((1, 1), (1, 2), (2, 3), (3, 1)):
                 ck_fpp(part, g, seam, s**a * p**b, None)
                 cnt += 1
-    for x in (-7, -1, 0, 1):
+    for x in (-7, -1, 0, 1) if idx == 0 else ():
         ck_fpp(part, g, seam, x, None)
         cnt += 1
     part.case(n=cnt)
     part.note('fpp_constructed_values', cnt)
-    part.sample(dict(fn='factor_prime_power', primes=[str(p) for p in big[:4]] + ['...'], exponents=ds[:8] + ['...']))
+    part.sample(dict(fn='factor_prime_power', x=f'{big[0]}^6', result=list(g.factor_prime_power(big[0]**6))))
 
 
 def job_ratrec(part, g, seam, job):
@@ -740,7 +752,7 @@ def job_ratrec(part, g, seam, job):
                 ck_ratrec(part, g, x, y, N, None)
                 ck_ratrec(part, g, x, y, None, N)
                 part.case(nontrivial=False, n=2)
-    part.sample(dict(fn='ratrec', moduli=job['ys'][:5] + ['...'], oracle='brute-force solution set'))
+    part.sample(dict(fn='ratrec', x=34, y=101, N=7, D=7, result=list(g.ratrec(34, 101, 7, 7)), solutions=R.ratrec_solutions(34, 101, 7, 7)))
 
 
 JOBS = dict(witness_small=job_witness_small, witness_surv=job_witness_surv, sweep=job_sweep, large=job_large,
@@ -753,7 +765,13 @@ def run_job(job):
     part = Part()
     watched(part, job.get('budget', 120), lambda: JOBS[job['kind']](part, g, seam, job))
     part.note('cases_' + job['kind'], part.evaluations)
+    if not job.get('sampler'):
+        part.samples = []
     return part
+
+
+def coverage_extra(tier, seed, total):
+    return {'samples': sorted(total.samples, key=repr)}        # independent of the order in which jobs finish
 
 
 def replay(case):
